@@ -201,33 +201,115 @@ theorem for_each_every_execution (srcs : Nat → Src α) (declaredRepeat : Bool)
     have h2 := for_each_rows (srcs e) declaredRepeat fuel (hf e (by omega))
     simp only [forEachExecs, h1, h2, List.range_succ, List.map_append, List.map_cons, List.map_nil]
 
-/-! ### placement: a consuming site inside a `for_each` template (defect D23) -/
+/-! ### placement: a consuming site inside a `for_each` template or an update-mode recipe
 
-/-- The statement the property asks for — *every placement* of the consuming template:
-    `∀ insideForEach recs m, rows = [recs[k mod n] | k < m]`.  It is **false** for the code as
-    it is: inside a `for_each` template the second row gets the first record again. -/
-theorem site_kth_every_placement_refuted :
+Before fix a90df5d (defect D40, found as D23) `ForEachVariableDefinition.evaluate` left
+`recalculate_every_time = True` on the template's context; the full-strength statements below
+were refuted then.  The model now follows the repaired code (`forEachFlagRestored = true`, pinned)
+and they are proved; the old behaviour stays available as `consumeAtWith false`. -/
+
+/-- the placement does not matter any more: a site inside a for_each template / update recipe
+    consumes exactly like one outside -/
+theorem consumeAt_placement_irrelevant (insideForEach : Bool) (src : Src α) (rep : Bool) (m : Nat) :
+    consumeAt insideForEach src rep m
+      = ((consume src (create src rep) m).1, (consume src (create src rep) m).2.1) := by
+  simp [consumeAt, consumeAtWith, forEachFlagRestored]
+
+/-- **Every placement** (full strength; was `site_kth_every_placement_refuted` + `_partial`):
+    at a `Dataset.iterate` site — top-level, nested, friend, inside a `for_each` template (own
+    field, nested, friend) or in an update-mode recipe — consuming row `k` gets `recs[k mod n]`,
+    for every record list with n ≥ 1 and every consumer count `m`; no error. -/
+theorem site_kth_every_placement (insideForEach : Bool) (recs : List α) (hn : 0 < recs.length) (m : Nat) :
+    (consumeAt insideForEach (linearSrc recs) true m).1
+        = (List.range m).map (fun k => recs[k % recs.length]'(Nat.mod_lt _ hn))
+    ∧ (consumeAt insideForEach (linearSrc recs) true m).2 = false := by
+  rw [consumeAt_placement_irrelevant]
+  exact consume_repeat recs hn m
+
+example : (consumeAt true (linearSrc [10, 20]) true 5).1 = [10, 20, 10, 20, 10] := by decide
+
+/-- **Exhaustion is an error in every placement** (full strength; was
+    `norepeat_inside_for_each_refuted`): a `repeat: False` site hands out `recs.take m` and fails
+    iff `m > n`, also inside a for_each template / update recipe — no silent reuse. -/
+theorem norepeat_exhausts_every_placement (insideForEach : Bool) (recs : List α) (m : Nat) :
+    (consumeAt insideForEach (linearSrc recs) false m).1 = recs.take m
+    ∧ (consumeAt insideForEach (linearSrc recs) false m).2 = decide (recs.length < m) := by
+  rw [consumeAt_placement_irrelevant]
+  exact consume_norepeat recs m
+
+example : consumeAt true (linearSrc ["only"]) false 2 = (["only"], true) := by decide
+
+/-- …and an empty dataset is an error at the first consuming row in every placement. -/
+theorem empty_errors_every_placement (insideForEach : Bool) (src : Src α) (hsrc : ∀ j, src j = [])
+    (rep : Bool) (m : Nat) :
+    consumeAt insideForEach src rep (m + 1) = ([], true) := by
+  rw [consumeAt_placement_irrelevant]
+  obtain ⟨h1, h2⟩ := consume_empty_errors src hsrc rep m
+  rw [h1, h2]
+
+/-- Shuffled site in every placement: the rows of every full cycle are a permutation of the
+    records (through `cycle_is_pass`: the consumed records are the passes, in order). -/
+theorem shuffle_site_every_placement (insideForEach : Bool) (recs : List α) (src : Src α)
+    (hn : 0 < recs.length) (hperm : ∀ j, (src j).Perm recs) (c : Nat) :
+    (consumeAt insideForEach src true ((c + 1) * recs.length)).2 = false
+    ∧ ∃ pass : List α, ((consumeAt insideForEach src true ((c + 1) * recs.length)).1.drop (c * recs.length)) = pass
+        ∧ pass.Perm recs := by
+  rw [consumeAt_placement_irrelevant]
+  obtain ⟨h1, h2⟩ := Proofs.C17.consume_eq_runN src (create src true) ((c + 1) * recs.length)
+  have hlen : ∀ j, (src j).length = recs.length := fun j => (hperm j).length_eq
+  -- every call returns a value: outcome k is record (k mod n) of pass (k div n)
+  have hnth : ∀ k, nth src (create src true) k
+      = Out.ofOption (src (k / recs.length))[k % recs.length]? := by
+    intro k
+    have h := Proofs.C17.nth_create src recs.length hn hlen (k / recs.length) (k % recs.length)
+      (Nat.mod_lt _ hn)
+    rwa [Nat.mul_comm, Nat.div_add_mod] at h
+  have hval : ∀ k, nth src (create src true) k
+      = Out.value ((src (k / recs.length))[k % recs.length]'(by rw [hlen]; exact Nat.mod_lt _ hn)) := by
+    intro k
+    rw [hnth k]
+    have : k % recs.length < (src (k / recs.length)).length := by rw [hlen]; exact Nat.mod_lt _ hn
+    simp [Out.ofOption, this]
+  have houts : ∀ M, (runN src (create src true) M).1
+      = ((List.range M).map (fun k => (src (k / recs.length))[k % recs.length]'(by
+          rw [hlen]; exact Nat.mod_lt _ hn))).map Out.value := by
+    intro M
+    rw [Proofs.C17.runN_eq_map_nth, List.map_map]
+    exact List.map_congr_left (fun k _ => hval k)
+  refine ⟨?_, ?_⟩
+  · show (consume src (create src true) ((c + 1) * recs.length)).2.1 = false
+    rw [h2, houts]; exact Proofs.C17.any_isStop_map_value _
+  · refine ⟨src c, ?_, hperm c⟩
+    show (consume src (create src true) ((c + 1) * recs.length)).1.drop (c * recs.length) = src c
+    rw [h1, houts, Proofs.C17.valuesPrefix_map_value]
+    apply List.ext_getElem
+    · simp [hlen c, Nat.add_mul]
+    · intro i hi1 hi2
+      have hi : i < recs.length := by rw [hlen c] at hi2; exact hi2
+      simp only [List.getElem_drop, List.getElem_map, List.getElem_range]
+      have e1 : (c * recs.length + i) / recs.length = c := by
+        rw [Nat.mul_comm, Nat.mul_add_div hn, Nat.div_eq_of_lt hi, Nat.add_zero]
+      have e2 : (c * recs.length + i) % recs.length = i := by
+        rw [Nat.mul_comm, Nat.mul_add_mod, Nat.mod_eq_of_lt hi]
+      simp only [e1, e2]
+
+/-! #### the old behaviour, explicitly parameterised (`flagRestored := false`) -/
+
+/-- Without the restore (code before a90df5d) the every-placement statement is false:
+    inside a `for_each` template the second row gets the first record again. -/
+theorem site_kth_without_restore_refuted :
     ¬ (∀ (insideForEach : Bool) (recs : List Nat) (hn : 0 < recs.length) (m : Nat),
-        (consumeAt insideForEach (linearSrc recs) true m).1
+        (consumeAtWith false insideForEach (linearSrc recs) true m).1
           = (List.range m).map (fun k => recs[k % recs.length]'(Nat.mod_lt _ hn))) := by
   intro h
   have := h true [10, 20] (by decide) 2
   revert this
   decide
 
-/-- …and proved under the explicit hypothesis "not inside a `for_each` template". -/
-theorem site_kth_every_placement_partial (recs : List α) (hn : 0 < recs.length) (rep : Bool) (m : Nat)
-    (hrep : rep = true) :
-    (consumeAt false (linearSrc recs) rep m).1
-        = (List.range m).map (fun k => recs[k % recs.length]'(Nat.mod_lt _ hn))
-    ∧ (consumeAt false (linearSrc recs) rep m).2 = false := by
-  subst hrep
-  simpa [consumeAt] using consume_repeat recs hn m
-
-/-- What the code does instead (faithful model): inside a `for_each` template every consuming
-    row gets the **first** record, for every `m`, whatever the `repeat` flag… -/
-theorem site_inside_for_each_always_first (recs : List α) (hn : 0 < recs.length) (rep : Bool) (m : Nat) :
-    consumeAt true (linearSrc recs) rep m = (List.replicate m (recs[0]'hn), false) := by
+/-- What the old code did instead: inside a `for_each` template every consuming row got the
+    **first** record, for every `m`, whatever the `repeat` flag, and never an error. -/
+theorem site_without_restore_always_first (recs : List α) (hn : 0 < recs.length) (rep : Bool) (m : Nat) :
+    consumeAtWith false true (linearSrc recs) rep m = (List.replicate m (recs[0]'hn), false) := by
   have hfresh : ∀ k, consumeFresh (fun _ => linearSrc recs) rep m k = (List.replicate m (recs[0]'hn), false) := by
     induction m with
     | zero => intro k; rfl
@@ -241,14 +323,17 @@ theorem site_inside_for_each_always_first (recs : List α) (hn : 0 < recs.length
         have ih' := ih (k + 1)
         simp only [List.getElem_cons_zero] at ih' ⊢
         simp only [consumeFresh, hnx, ih', List.replicate_succ]
-  simp [consumeAt, forEachRecalculates, hfresh 0]
+  simp [consumeAtWith, forEachRecalculates, hfresh 0]
 
-/-- …so "asking a non-repeating dataset for more records than it has is an error" is **false**
-    there: one record, `repeat: False`, two rows — no error, the record is silently reused. -/
-theorem norepeat_inside_for_each_refuted :
-    consumeAt true (linearSrc ["only"]) false 2 = (["only", "only"], false) := by decide
+/-- …so a non-repeating dataset was silently reused there (old behaviour only). -/
+theorem norepeat_without_restore_reused :
+    consumeAtWith false true (linearSrc ["only"]) false 2 = (["only", "only"], false) := by decide
 
-example : consumeAt false (linearSrc ["only"]) false 2 = (["only"], true) := by decide
+/-- the restore is exactly what separates the two behaviours: with it, `consumeAtWith` does not
+    look at the placement -/
+theorem restore_makes_placement_irrelevant (insideForEach : Bool) (src : Src α) (rep : Bool) (m : Nat) :
+    consumeAtWith true insideForEach src rep m = consumeAtWith true false src rep m := by
+  simp [consumeAtWith]
 
 /-- **update mode: one row per input record, in input order, and it stops** — the first
     iteration emits the `n` rows; because the single shared iterator does not repeat, any
